@@ -4,6 +4,7 @@
 set -u
 id=$1
 src=${2:-/tmp/seeded/$id}
+[ -d "$src" ] || src=/verif/seeded/$id
 wt=/tmp/wt-verify-$id
 export GOFLAGS=-mod=mod GOPROXY=off GOSUMDB=off GOTOOLCHAIN=local
 git -C /repo worktree remove --force $wt >/dev/null 2>&1
